@@ -129,7 +129,7 @@ Print Assumptions plain_agrees.
    340f28c) detaches the FIRST of two same-named siblings when the second is
    given; the current model and the reference detach the second. *)
 Theorem detach_by_equality_refuted :
-  let s := run false empty_store two_a in
+  let s := run AQuirk empty_store two_a in
   kids_of (m_detach_by_equality s 2%N) 0%N = [2]%N /\
   kids_of (m_detach s 2%N) 0%N = [1]%N /\
   option_map (fun rs => kids_ids (r_forest rs) 0%N)
@@ -139,13 +139,15 @@ Print Assumptions detach_by_equality_refuted.
 
 (* Attributes are still removed through list.remove, i.e. by Attribute.__eq__,
    which compares self.prefix with rhs.name: on <r n:n="1" q:n="2"/>,
-   unset("q:n") removes n:n (model with quirk = true, as the code is); with
-   __eq__ comparing prefix with prefix q:n goes.  The reference makes no claim
+   unset("q:n") removes n:n (model in mode AQuirk, as the code is); with
+   __eq__ comparing prefix with prefix (AEq) or removal of the very object (AId)
+   q:n goes.  The reference makes no claim
    here (an earlier attribute has the same local name), which is the only
    attribute-related restriction of edit_refines_reference. *)
 Theorem unset_by_equality_refuted :
-  attr_names (run true empty_store (two_attrs ++ [OUnset 0%N sqn])) 0%N = [sqn] /\
-  attr_names (run false empty_store (two_attrs ++ [OUnset 0%N sqn])) 0%N = [snn] /\
+  attr_names (run AQuirk empty_store (two_attrs ++ [OUnset 0%N sqn])) 0%N = [sqn] /\
+  attr_names (run AEq empty_store (two_attrs ++ [OUnset 0%N sqn])) 0%N = [snn] /\
+  attr_names (run AId empty_store (two_attrs ++ [OUnset 0%N sqn])) 0%N = [snn] /\
   ref_run empty_rstate (two_attrs ++ [OUnset 0%N sqn]) = None.
 Proof. exact unset_by_equality_refuted_l. Qed.
 Print Assumptions unset_by_equality_refuted.
